@@ -98,6 +98,10 @@ func plans(r *ev.Run) []plan {
 	add(false, "core", 6, 3, true, roleP, roleN, roleM) // reference WAL, one more input
 	add(false, "mini", 7, 3, false, roleP, roleN)       // length 7 over the smallest alphabet that still commits
 	add(false, "wide", 4, 2, true, roleP, roleN, roleM) // every (height, round, kind, value) symbol + invalid / re-proposal
+	// extra: an Application whose Valid() forgets across incarnations (see appAmnesic)
+	for _, role := range []int{roleN, roleP} {
+		ps = append(ps, plan{config{Role: role, App: appAmnesic, Alpha: "core", L: 4, Redel: true}, 2})
+	}
 	return ps
 }
 
@@ -154,6 +158,13 @@ func TestCheck(t *testing.T) {
 	perCfg := map[string]*agg{}
 	points := map[string]int64{}
 	outcomes := map[string]int64{}
+	// per violation key the smallest failing case is reported (jobs complete in no particular order)
+	type best struct {
+		size   int
+		detail map[string]any
+		count  int64
+	}
+	found := map[string]*best{}
 	var cfgOrder []string
 	budgetEnd := time.Now().Add(time.Duration(ev.Pick(r, 140, 1620)) * time.Second)
 	if b := os.Getenv("VERIF_BUDGET_S"); b != "" {
@@ -190,12 +201,20 @@ func TestCheck(t *testing.T) {
 		for _, v := range res.Viols {
 			var d map[string]any
 			json.Unmarshal(v.Detail, &d)
-			for i := 0; i < v.Count; i++ {
-				r.Violate(v.Key, d)
-				if i >= 3 {
-					break
-				}
+			size := len(v.Detail)
+			if rp, ok := d["replay"].(map[string]any); ok {
+				pre, _ := rp["pre"].([]any)
+				post, _ := rp["post"].([]any)
+				size += 1000000 * (len(pre) + len(post))
 			}
+			b := found[v.Key]
+			if b == nil {
+				b = &best{size: size, detail: d}
+				found[v.Key] = b
+			} else if size < b.size {
+				b.size, b.detail = size, d
+			}
+			b.count += int64(v.Count)
 			r.Add("violating_cases", int64(v.Count))
 		}
 		for _, s := range res.Samples {
@@ -210,6 +229,10 @@ func TestCheck(t *testing.T) {
 	if infra != "" {
 		r.Infra("%s", infra)
 	}
+	for k, b := range found {
+		b.detail["failing_cases"] = b.count
+		r.Violate(k, b.detail)
+	}
 	per := map[string]any{}
 	for _, k := range cfgOrder {
 		a := perCfg[k]
@@ -217,7 +240,7 @@ func TestCheck(t *testing.T) {
 		if a.cut {
 			r.Incomplete("internal deadline: not all subtrees explored for " + k)
 		}
-		if a.stats["scripts"] == 0 || a.stats["crash_points"] == 0 {
+		if !a.cut && (a.stats["scripts"] == 0 || a.stats["crash_points"] == 0) {
 			r.Infra("vacuous exploration for %s", k)
 		}
 	}
